@@ -64,6 +64,7 @@ type Table struct {
 	terms []*Term
 	Vars  []*Term
 	vars  map[string]*Term
+	pmemo map[int][]piece
 }
 
 func NewTable() *Table {
@@ -313,7 +314,7 @@ func (tb *Table) Extract(hi, lo int, a *Term) *Term {
 			return tb.Extract(hi-lw, lo-lw, a.Args[0])
 		}
 	}
-	return tb.mk("extract", BVSort(hi-lo+1), hi, lo, a)
+	return tb.normalize(tb.mk("extract", BVSort(hi-lo+1), hi, lo, a))
 }
 
 func (tb *Table) ZeroExt(n int, a *Term) *Term {
@@ -349,7 +350,7 @@ func (tb *Table) Concat(hi, lo *Term) *Term {
 	if hi.IsConst() && hi.Val == 0 {
 		return tb.ZeroExt(hi.S.W, lo)
 	}
-	return tb.mk("concat", BVSort(hi.S.W+lo.S.W), 0, 0, hi, lo)
+	return tb.normalize(tb.mk("concat", BVSort(hi.S.W+lo.S.W), 0, 0, hi, lo))
 }
 
 // AppI is the generic constructor.  i,j are indices for indexed ops.
@@ -497,7 +498,20 @@ func (tb *Table) AppI(op string, i, j int, args ...*Term) *Term {
 		if (op == "bvshl" || op == "bvlshr") && b.IsConst() && b.Val >= uint64(w) {
 			return tb.BVConst(0, w)
 		}
-		return tb.mk(op, a.S, 0, 0, a, b)
+		r := tb.mk(op, a.S, 0, 0, a, b)
+		switch op {
+		case "bvshl", "bvlshr":
+			if b.IsConst() {
+				return tb.normalize(r)
+			}
+		case "bvand":
+			if a.IsConst() || b.IsConst() {
+				return tb.normalize(r)
+			}
+		case "bvor", "bvxor", "bvadd":
+			return tb.normalize(r)
+		}
+		return r
 	case "bvnot":
 		if a.IsConst() {
 			return tb.BVConst(^a.Val, a.S.W)
@@ -562,7 +576,7 @@ func (tb *Table) AppI(op string, i, j int, args ...*Term) *Term {
 			}
 		}
 		return tb.mk(op, a.S, 0, 0, a, b)
-	case "fp.neg", "fp.abs", "fp.sqrt", "fp.floor", "fp.ceil", "fp.trunc", "fp.rne":
+	case "fp.neg", "fp.abs", "fp.sqrt", "fp.floor", "fp.ceil", "fp.trunc", "fp.rne", "fp.rna":
 		if a.IsConst() && a.S.W == 64 {
 			x := math.Float64frombits(a.Val)
 			if x == x {
@@ -577,6 +591,8 @@ func (tb *Table) AppI(op string, i, j int, args ...*Term) *Term {
 					return tb.FPConst64(math.Ceil(x))
 				case "fp.trunc":
 					return tb.FPConst64(math.Trunc(x))
+				case "fp.rna":
+					return tb.FPConst64(math.Round(x))
 				}
 			}
 		}
@@ -762,6 +778,8 @@ func Body(t *Term) string {
 		fmt.Fprintf(&sb, "(fp.roundToIntegral RTZ %s)", a(0))
 	case "fp.rne":
 		fmt.Fprintf(&sb, "(fp.roundToIntegral RNE %s)", a(0))
+	case "fp.rna":
+		fmt.Fprintf(&sb, "(fp.roundToIntegral RNA %s)", a(0))
 	case "bv2fp":
 		fmt.Fprintf(&sb, "(%s %s)", fpTo(t.I), a(0))
 	case "sbv2fp":
@@ -815,4 +833,31 @@ func (tb *Table) EqStruct(a, b *Term) *Term {
 		a, b = b, a
 	}
 	return tb.mk("=", BoolSort, 0, 0, a, b)
+}
+
+// Subst replaces variables by terms (memoised per call).
+func (tb *Table) Subst(t *Term, m map[*Term]*Term, memo map[*Term]*Term) *Term {
+	if r, ok := m[t]; ok {
+		return r
+	}
+	if t.IsConst() || t.IsVar() {
+		return t
+	}
+	if r, ok := memo[t]; ok {
+		return r
+	}
+	args := make([]*Term, len(t.Args))
+	changed := false
+	for i, a := range t.Args {
+		args[i] = tb.Subst(a, m, memo)
+		if args[i] != a {
+			changed = true
+		}
+	}
+	r := t
+	if changed {
+		r = tb.AppI(t.Op, t.I, t.J, args...)
+	}
+	memo[t] = r
+	return r
 }
